@@ -29,6 +29,5 @@ package objfile
 //gvc:  theory int
 //gvc:  opt coarse
 //gvc:  opt frame args
-//gvc:  requires inv: w.pending >= 0
 //gvc:  ensures complete: result == nil && !old(w.closed) ==> w.pending == 0
 //gvc:end
